@@ -137,6 +137,10 @@ func (propC16) Gen(seed uint64, ex map[string]bool) interface{} {
 		}
 		sc.Raws = append(sc.Raws, raw)
 	}
+	if r.P(2) {
+		// now and then a really large source (several MiB): the format's length prefixes are 32 bits wide
+		sc.Raws = append(sc.Raws, c16Raw{Name: "huge", Kind: "exact", Hex: hex.EncodeToString([]byte("0123456789abcdef")), Repeat: pick(r, []int{4<<20 + 1, 5 << 20, 9<<20 + 7}), LastMod: 1, CompT: 2})
+	}
 	if r.P(30) && sc.Via != "bytes" && !ex["disk-faults"] {
 		nf := r.Range(1, 2)
 		for i := 0; i < nf; i++ {
